@@ -46,3 +46,25 @@ package sqlc
 //@   property C06
 //@   flag callbacks_noheap
 //@   call SetWithExpireCtx#0: assert arg_expire == expire + cacheSafeGapBetweenIndexAndPrimary && cacheSafeGapBetweenIndexAndPrimary > 0 && arg_val == v && arg_ctx == ctx
+
+// the thin entry points hand keys, values and expiries on unchanged
+//@ func (cc CachedConn) DelCache
+//@   property C06
+//@   call DelCacheCtx#0: assert sameSlice(arg_keys, keys)
+//@ func (cc CachedConn) Exec
+//@   property C06
+//@   call ExecCtx#0: assert sameSlice(arg_keys, keys)
+//@ func (cc CachedConn) Exec closure 0
+//@   property C06
+//@   flag callbacks_noheap
+//@   ensures calls(exec) == old(calls(exec)) + 1
+//@   call exec#0: assert arg0 == conn
+//@ func (cc CachedConn) SetCacheCtx
+//@   property C06
+//@   call SetCtx#0: assert arg_key == key && arg_val == val
+//@ func (cc CachedConn) SetCacheWithExpireCtx
+//@   property C06
+//@   call SetWithExpireCtx#0: assert arg_key == key && arg_val == val && arg_expire == expire
+//@ func (cc CachedConn) SetCacheWithExpire
+//@   property C06
+//@   call SetCacheWithExpireCtx#0: assert arg_key == key && arg_val == val && arg_expire == expire
